@@ -60,13 +60,22 @@ def db(x):
     return x / 1e6
 
 
-def equipment_for(cfg, auto_voa=False):
-    lib = [dict(m, out_voa_auto=True) for m in FG] if auto_voa else FG
+FG2 = dict(type_variety='fg_auto2', type_def='fixed_gain', gain_flatmax=40, gain_min=0, p_max=12.2, nf0=6,
+           out_voa_auto=False, allowed_for_design=True)      # noisier, 0.2 dB more power than fg_auto
+
+
+def equipment_for(cfg, oms):
+    lib = list(FG)
+    if oms['rich'] == 5:
+        lib.append(FG2)                   # two models eligible for auto-selection, p_max within 0.3 dB of each other
+    if oms['rich'] == 1:
+        lib = [dict(m, out_voa_auto=True) for m in lib]
+    si = dict(SI, power_dbm=db(oms['dpref']), tx_power_dbm=db(oms['tx']) if oms['ing'] == 1 else 0)
     return U.synthetic_equipment(lib, span=dict(power_mode=cfg['mode'] == 1,
                                                delta_power_range_db=[db(cfg['lo']), db(cfg['hi']), db(cfg['step'])],
                                                power_slope=cfg['slope'] / 1000, span_loss_ref=db(cfg['ref']),
                                                padding=10, EOL=0.5, con_in=0.25, con_out=0.25,
-                                               target_extended_gain=3, max_length=150, length_units='km'), si=SI)
+                                               target_extended_gain=3, max_length=150, length_units='km'), si=si)
 
 
 def spans_for(oms):
@@ -74,7 +83,8 @@ def spans_for(oms):
     only on the last fibre); a span below the padding of a profile with the -17.5 dBm ROADM target carries an
     operator att_in of 1.5 dB.  Default connectors 2 x 0.25 dB per fibre, EOL 0.5 dB."""
     spans, att = [], False
-    for k, a in enumerate(oms['amps'][1:], start=1):
+    behind = oms['amps'] if oms['ing'] == 1 else oms['amps'][1:]        # amplifiers that have a span in front of them
+    for k, a in enumerate(behind, start=1):
         r = db(a['raw'])
         att_in = 1.5 if (r < 10 and oms['t0'] != -20000000) else 0
         att = att or att_in > 0
@@ -89,7 +99,7 @@ def spans_for(oms):
 
 def amps_for(oms):
     amps = {}
-    for k, a in enumerate(oms['amps']):
+    for k, a in enumerate(oms['amps'], start=oms['ing']):          # a line starting at a transceiver has no amplifier 0
         def opt(v):
             return None if v == NONE else db(v)
         if a['kind'] == 0:
@@ -107,31 +117,41 @@ def amps_for(oms):
 
 
 def pos_of(oms, k):
-    return 'booster' if k == 0 else ('preamp' if k == len(oms['amps']) - 1 else 'inline')
+    if k == len(oms['amps']) - 1 and (k > 0 or oms.get('ing') == 1):
+        return 'preamp'
+    return 'booster' if k == 0 and oms.get('ing') != 1 else 'inline'
 
 
-def replay(js, chk, traces, ctxs, dev, propagate):
+def replay(behaviours, chk, traces, ctxs, dev, propagate):
     """design the concretised OMS with the real code and compare with TLC's expectation.  Returns None when the
     design equals the expectation, else a dict describing the first amplifier that differs (reported by `report_b2`
     together with the clause names TLC finds for the same design)."""
+    js = behaviours[0]
     cfg, oms, exp = js['cfg'], js['oms'], js['out']
     auto = oms['rich'] == 1                 # library models with out_voa_auto: the design may add v to gain, dp and voa
-    eq = equipment_for(cfg, auto_voa=auto)
+    eq = equipment_for(cfg, oms)
     spans, att = spans_for(oms)
-    topo = U.line_topology(spans, roadm_a={'params': {'target_pch_out_db': db(oms['t0'])}}, amps=amps_for(oms))
+    topo = U.line_topology(spans, roadm_a={'params': {'target_pch_out_db': db(oms['dpref'] + oms['t0'])}},
+                           amps=amps_for(oms), ingress='trx' if oms['ing'] == 1 else 'roadm')
     key = json.dumps([cfg, oms], sort_keys=True)
     name = 'B2#' + format(zlib.crc32(key.encode()), '08x')
     try:
         net, ref, rec = U.design_json(topo, eq)
     except Exception as e:                                               # noqa  an exception on a valid OMS
         return dict(name=name, cfg=cfg, oms=oms, att=att, k=0, fields=[f'EXC-{type(e).__name__}'], exception=str(e))
-    tr, cx = U.oms_traces(net, eq, ref, rec, name, cfg['mode'] == 1, only=('roadm A', 'roadm B'), propagate=propagate)
+    tr, cx = U.oms_traces(net, eq, ref, rec, name, cfg['mode'] == 1,
+                          only=('trx A' if oms['ing'] == 1 else 'roadm A', 'roadm B'), propagate=propagate)
     if len(tr) != 1 or len(tr[0]['ev']) != len(exp):
         raise Machinery(f'synthetic line designed {len(tr[0]["ev"]) if tr else "no"} amplifiers, expected {len(exp)}')
     t = tr[0]
     t['b2'] = 1
     t['name'] = name
     traces.append(t)
+    # the model's design for the amplifier models actually in place (their p_max is read from the designed amplifiers)
+    match = [b for b in behaviours if all(abs(o['pmax'] - e['pmax']) <= TOL for o, e in zip(b['out'], t['ev']))]
+    if not match:
+        raise Machinery(f'{name}: no model design for the p_max in place {[e["pmax"] for e in t["ev"]]}')
+    exp = match[0]['out']
     ctxs[name] = dict(cx[0], cfg=cfg, oms=oms, expected=exp, att=att)
     for k, (e, x) in enumerate(zip(t['ev'], exp)):
         a = oms['amps'][k]
@@ -277,15 +297,18 @@ def run_b3(chk):
     skipped = []
     # every shipped network as shipped; some also with the documented library option out_voa_auto switched on for every
     # model and the amplifiers turned into placeholders (no shipped library uses the option)
-    corpus = [(n, t, e, x, tier, False, None) for n, t, e, x, tier in U.SHIPPED]
-    corpus += [(n + '-autovoa', t, e, x, tier, True, {'out_voa_auto': True}) for n, t, e, x, tier in U.SHIPPED
+    corpus = [(n, t, e, x, tier, False, None, None) for n, t, e, x, tier in U.SHIPPED]
+    corpus += [(n + '-autovoa', t, e, x, tier, True, {'out_voa_auto': True}, None) for n, t, e, x, tier in U.SHIPPED
                if n in ('meshV2', 'td_testTopology', 'CORONET_CONUS')]
-    for name, topo, eqf, extra, tier, strip, attrs in corpus:
+    # lines that start at a transceiver, designed for a reference power that differs from the transmit power
+    corpus += [(n + '-ref+1dBm-tx0dBm', t, e, x, tier, False, None, {'power_dbm': 1, 'tx_power_dbm': 0})
+               for n, t, e, x, tier in U.SHIPPED if n in ('edfa_example', 'td_test_network', 'raman_edfa_example')]
+    for name, topo, eqf, extra, tier, strip, attrs, si in corpus:
         if tier == 'thorough' and chk.tier == 'quick':
             continue
         for mode in (True, False):
             try:
-                net, eq, ref, rec = U.design(topo, eqf, extra, power_mode=mode, strip=strip, edfa_attrs=attrs)
+                net, eq, ref, rec = U.design(topo, eqf, extra, power_mode=mode, strip=strip, edfa_attrs=attrs, si=si)
             except U.LoadError as e:
                 chk.cov.setdefault('b3_not_loadable', []).append(f'{name}: {str(e)[:80]}')
                 continue
@@ -337,7 +360,8 @@ def run(chk):
     b2_traces, b2_ctx = [], {}
     n_cases = n_ok = 0
     exercised = dict(reduced=0, offset_kept=0, gain_kept=0, user_voa=0, padded=0, zero_before_roadm=0, in_voa=0,
-                     bound_off_step=0, auto_voa_followed_by_amplifier=0)
+                     bound_off_step=0, auto_voa_followed_by_amplifier=0, starts_at_transceiver=0,
+                     tx_power_differs_from_reference=0, two_auto_models_above_both_pmax=0)
     for b in BOUNDS[chk.tier]:
         r = tlc.run('MC_DesignPower', cfg_text=mc_cfg(b), timeout=2400, tag='c09-mc')
         chk.add_mc(f'MC_DesignPower MaxSpans={b["max_spans"]} {b["losses"]} MultiUser={b["multi"]} Rich={b["rich"]}', r)
@@ -347,25 +371,32 @@ def run(chk):
             seen.setdefault(k, []).append(js)
         for k, v in sorted(seen.items()):
             js = v[0]
-            if js['oms']['rich'] == 0 and len(v) != 1:
+            if js['oms']['rich'] in (0, 6) and len(v) != 1:
                 raise Machinery('replayable profile with more than one admissible design')
-            inv = {json.dumps([[o['gain'] - o['voa'], o['dp'] - o['voa']] for o in w['out']]) for w in v}
-            if len(inv) != 1:
-                raise Machinery('admissible designs of an automatic-VOA profile differ by more than the VOA')
+            inv = {json.dumps([[o['gain'] - o['voa'], o['dp'] - o['voa'], o['pmax']] for o in w['out']]) for w in v}
+            if len(inv) != len({json.dumps([o['pmax'] for o in w['out']]) for w in v}):
+                raise Machinery('admissible designs differ by more than the automatic VOA / the model in place')
             n_cases += 1
-            m = replay(js, chk, b2_traces, b2_ctx, dev, propagate=(n_cases % b.get('propagate_every', 1) == 0))
+            m = replay(v, chk, b2_traces, b2_ctx, dev, propagate=(n_cases % b.get('propagate_every', 1) == 0))
             if m is None:
                 n_ok += 1
             else:
                 mism.append(m)
             cfg = js['cfg']
+            o6 = js['oms']
+            exercised['starts_at_transceiver'] += o6['ing'] == 1
+            exercised['tx_power_differs_from_reference'] += o6['ing'] == 1 and o6['tx'] != o6['dpref']
+            exercised['two_auto_models_above_both_pmax'] += o6['rich'] == 5 and any(
+                not a['uVar'] and cfg['prefTot'] + o6['dpref'] + o['dp'] == min(a['pmaxSet']) and
+                any(w['out'][k]['pmax'] != o['pmax'] for w in v)
+                for k, (a, o) in enumerate(zip(o6['amps'], js['out'])))
             exercised['bound_off_step'] += cfg['step'] > 0 and (cfg['lo'] % cfg['step'] != 0 or cfg['hi'] % cfg['step'] != 0)
             if js['oms']['rich'] == 1 and b2_traces and b2_traces[-1]['name'].endswith(format(zlib.crc32(k.encode()), '08x')):
                 ev = b2_traces[-1]['ev']
                 exercised['auto_voa_followed_by_amplifier'] += any(e['voa'] > 0 and e['uVoa'] == NONE for e in ev[:-1])
             for a, o in zip(js['oms']['amps'], js['out']):
                 gk = cfg['mode'] == 0 and a['uGain'] != NONE
-                exercised['reduced'] += cfg['prefTot'] + o['dp'] == a['pmax']
+                exercised['reduced'] += cfg['prefTot'] + js['oms']['dpref'] + o['dp'] == o['pmax']
                 exercised['offset_kept'] += a['uDp'] != NONE and not gk
                 exercised['gain_kept'] += gk
                 exercised['user_voa'] += a['uVoa'] != NONE
